@@ -100,7 +100,11 @@ class ClassUtils:
         target.extensions.remove(extension)
         target_attr_names = {attr.name for attr in target.attrs}
         # A xml attribute named `value` doesn't override the text value
-        attribute_names = {attr.name for attr in target.attrs if attr.is_attribute}
+        attribute_names = {
+            attr.name
+            for attr in target.attrs
+            if attr.is_attribute and attr.name == DEFAULT_ATTR_NAME
+        }
         if any(attr.xml_type is None for attr in target.attrs):
             attribute_names.clear()
 
